@@ -64,7 +64,10 @@ type c18Hello struct {
 	Suites  []uint16 `json:"suites"`
 	Comp    []byte   `json:"comp"`
 	// how the cookie of this hello is produced
-	Cookie  string `json:"cookie"` // "none", "echo" (the cookie just received), "flip" (echo with one byte changed), "prev" (a cookie received for an earlier hello / connection), "random"
+	Cookie  string `json:"cookie"` // "none", "echo" (the cookie just received), "flip" (echo with one byte changed), "prev" (a cookie received for an earlier hello / connection), "random", "trunc" (the first FlipPos%31+1 bytes of the cookie just received), "byte" (the one-byte cookie FlipPos), "extend" (the cookie just received plus one byte)
+	// SIDEst: the hello carries the session identifier of a session this server has in its cache
+	// (the case is primed with one completed handshake)
+	SIDEst bool `json:"sid_est,omitempty"`
 	FlipPos int    `json:"flippos"`
 	FlipMask byte  `json:"flipmask"`
 }
@@ -78,6 +81,7 @@ type c18Conn struct {
 
 type c18Case struct {
 	Suite uint16    `json:"suite"`
+	Prime bool      `json:"prime,omitempty"` // one honest handshake first; all connections share the server's session cache
 	Conns []c18Conn `json:"conns"`
 }
 
@@ -111,6 +115,24 @@ func c18Run(c c18Case) (sig, msg string, nontrivial bool) {
 	// the rotating secret: one buffer, new content in place on every rotation; logically a new secret each time
 	rotating := bytes.Repeat([]byte{0xC3}, 32)
 	generation := 0
+	var srvCache SessionCache
+	var estSID []byte
+	if c.Prime {
+		srvCache = NewLRUSessionCache(8)
+		cliCache := NewLRUSessionCache(8)
+		ccfg, scfg := vfBaseConfigs(c.Suite, false)
+		ccfg.SessionCache, scfg.SessionCache = cliCache, srvCache
+		r0 := vfRunPair(ccfg, scfg, vfPairOpt{})
+		if r0.CErr != nil || r0.SErr != nil {
+			return "honest-failed", fmt.Sprintf("priming handshake: %v / %v", r0.CErr, r0.SErr), false
+		}
+		if ss, ok := cliCache.Get(""); ok && ss != nil {
+			estSID = append([]byte(nil), ss.sessionId...)
+		}
+		if len(estSID) == 0 {
+			return "honest-failed", "priming handshake left no session", false
+		}
+	}
 	for ci, cn := range c.Conns {
 		secretID := cn.Secret % 4
 		secretBytes := [][]byte{nil, c18Secrets[1], c18Secrets[2], rotating}[secretID]
@@ -128,7 +150,7 @@ func c18Run(c c18Case) (sig, msg string, nontrivial bool) {
 		sigC.PrivateKey = vfNewCountKey(p.SrvSig.PrivateKey.(*sm2.PrivateKey), &keyOps)
 		encC.PrivateKey = vfNewCountKey(p.SrvEnc.PrivateKey.(*sm2.PrivateKey), &keyOps)
 		ucfg := &Config{Time: vfTime, Certificates: []Certificate{sigC, encC}, CipherSuites: []uint16{c.Suite}, CookieSecret: secretBytes,
-			ClientAuth: RequireAndVerifyClientCert, ClientCAs: p.A.pool, InitialRetransmitTimeout: 16e9, MaxRetransmitTimeout: 64e9}
+			ClientAuth: RequireAndVerifyClientCert, ClientCAs: p.A.pool, InitialRetransmitTimeout: 16e9, MaxRetransmitTimeout: 64e9, SessionCache: srvCache}
 		if !vfIsECDHE(c.Suite) {
 			ucfg.ClientAuth = NoClientCert
 		}
@@ -145,6 +167,9 @@ func c18Run(c c18Case) (sig, msg string, nontrivial bool) {
 		r := vfRunVsPeer(false, ucfg, pcfg, func(pc *Conn) error {
 			var last []byte
 			for hi, h := range cn.Hellos {
+				if h.SIDEst {
+					h.SID = estSID
+				}
 				hello := &clientHelloMsg{vers: h.Vers, random: h.Random, sessionId: h.SID, cipherSuites: h.Suites, compressionMethods: h.Comp,
 					supportedCurves: []CurveID{CurveSM2}, supportedSignatureAlgorithms: []SignatureScheme{SM2WithSM3}}
 				switch h.Cookie {
@@ -162,6 +187,16 @@ func c18Run(c c18Case) (sig, msg string, nontrivial bool) {
 					}
 				case "random":
 					hello.cookie = bytes.Repeat([]byte{byte(h.FlipPos)}, 32)
+				case "trunc":
+					if len(last) > 1 {
+						hello.cookie = append([]byte(nil), last[:h.FlipPos%(len(last)-1)+1]...)
+					}
+				case "byte":
+					hello.cookie = []byte{byte(h.FlipPos)}
+				case "extend":
+					if len(last) > 0 {
+						hello.cookie = append(append([]byte(nil), last...), h.FlipMask)
+					}
 				}
 				if len(hello.cookie) > 0 {
 					nontrivial = true
@@ -344,6 +379,33 @@ func c18Catalogue(suite uint16) []c18Case {
 	// the configured secret is overwritten in place (key rotation): old cookies die, new ones are issued under the new secret
 	add(c18Conn{Addr: "10.0.0.1:1000", Secret: 3, Hellos: []c18Hello{b, echo}}, c18Conn{Addr: "10.0.0.1:1000", Secret: 3, Rotate: true, Hellos: []c18Hello{prev, b, echo}})
 	add(c18Conn{Addr: "10.0.0.1:1000", Secret: 3, Hellos: []c18Hello{b}}, c18Conn{Addr: "10.0.0.1:1000", Secret: 3, Rotate: true, Hellos: []c18Hello{b}}, c18Conn{Addr: "10.0.0.1:1000", Secret: 3, Rotate: true, Hellos: []c18Hello{prev}})
+	// a proper prefix of the right cookie, the right cookie plus one byte, every one-byte cookie
+	for k := 1; k < 32; k++ {
+		tr := echo
+		tr.Cookie, tr.FlipPos = "trunc", k-1
+		add(c18Conn{Addr: "10.0.0.1:1000", Secret: 1, Hellos: []c18Hello{b, tr}})
+	}
+	ex := echo
+	ex.Cookie = "extend"
+	add(c18Conn{Addr: "10.0.0.1:1000", Secret: 1, Hellos: []c18Hello{b, ex, echo}})
+	var bytesHellos []c18Hello
+	for v := 0; v < 256; v++ {
+		ob := echo
+		ob.Cookie, ob.FlipPos = "byte", v
+		bytesHellos = append(bytesHellos, ob)
+	}
+	add(c18Conn{Addr: "10.0.0.7:7000", Secret: 1, Hellos: bytesHellos})
+	add(c18Conn{Addr: "10.0.0.7:7000", Secret: 0, Hellos: bytesHellos})
+	// a cookieless hello that names a session the server has cached (from the same and from another address)
+	est := b
+	est.SIDEst = true
+	estEcho := est
+	estEcho.Cookie = "echo"
+	out = append(out, c18Case{Suite: suite, Prime: true, Conns: []c18Conn{{Addr: "10.0.0.1:1000", Secret: 1, Hellos: []c18Hello{est, est, estEcho}}}})
+	out = append(out, c18Case{Suite: suite, Prime: true, Conns: []c18Conn{{Addr: "203.0.113.7:4444", Secret: 0, Hellos: []c18Hello{est, estEcho}}}})
+	offerOther := est
+	offerOther.Suites = []uint16{0xe0ff}
+	out = append(out, c18Case{Suite: suite, Prime: true, Conns: []c18Conn{{Addr: "203.0.113.7:4444", Secret: 1, Hellos: []c18Hello{offerOther}}}})
 	// random cookie
 	rc := echo
 	rc.Cookie = "random"
@@ -352,7 +414,7 @@ func c18Catalogue(suite uint16) []c18Case {
 }
 
 func TestVF_C18(t *testing.T) {
-	rec := vfRec("C18", "C18-cookie", "a scripted client sends ClientHello sequences on one or several server connections (source address, configured secret A/B or none): cookieless hellos, a valid cookie followed by a change of each covered field, every cookie byte x 3 masks, cookies replayed across addresses, secrets and connections, the split-shift pair whose address||parameters concatenations coincide; rapid variants; the server's keys are counting wrappers; oracle: before a valid cookie exactly one HelloVerifyRequest datagram per hello, not larger than the request, zero private-key operations, no ServerHello; a cookie is valid only for exactly the address, parameters and secret it was issued for; without a configured secret every connection has its own; non-trivial = a hello carrying a cookie; distinct = the case")
+	rec := vfRec("C18", "C18-cookie", "a scripted client sends ClientHello sequences on one or several server connections (source address, configured secret A/B or none): cookieless hellos, a valid cookie followed by a change of each covered field, every cookie byte x 3 masks, every proper prefix of the cookie, the cookie plus one byte, all 256 one-byte cookies, cookies replayed across addresses, secrets and connections, cookieless hellos naming a session the server has cached, the split-shift pair whose address||parameters concatenations coincide; rapid variants; the server's keys are counting wrappers; oracle: before a valid cookie exactly one HelloVerifyRequest datagram per hello, not larger than the request, zero private-key operations, no ServerHello; a cookie is valid only for exactly the address, parameters and secret it was issued for; without a configured secret every connection has its own; non-trivial = a hello carrying a cookie; distinct = the case")
 	idx := 0
 	for _, suite := range []uint16{ECC_SM4_GCM_SM3, ECDHE_SM4_GCM_SM3} {
 		for _, c := range c18Catalogue(suite) {
@@ -373,7 +435,7 @@ func TestVF_C18(t *testing.T) {
 	}
 	rec.SetExhaustive(true, fmt.Sprintf("catalogue of %d hello sequences; random sequences sampled", idx))
 	vfRapid(t, rec, "random", vfN(500, 20000), func(t *rapid.T) {
-		c := c18Case{Suite: rapid.SampledFrom([]uint16{ECC_SM4_GCM_SM3, ECDHE_SM4_CBC_SM3}).Draw(t, "suite")}
+		c := c18Case{Suite: rapid.SampledFrom([]uint16{ECC_SM4_GCM_SM3, ECDHE_SM4_CBC_SM3}).Draw(t, "suite"), Prime: rapid.IntRange(0, 3).Draw(t, "prime") == 0}
 		nc := rapid.IntRange(1, 3).Draw(t, "nconns")
 		for i := 0; i < nc; i++ {
 			cn := c18Conn{Addr: rapid.SampledFrom([]string{"10.0.0.1:1000", "10.0.0.1:1001", "10.0.0.2:1000", "10.0.0.1:100", "10.0.0.1:10"}).Draw(t, "addr"), Secret: rapid.IntRange(0, 3).Draw(t, "secret"),
@@ -382,13 +444,16 @@ func TestVF_C18(t *testing.T) {
 			for j := 0; j < nh; j++ {
 				h := c18BaseHello()
 				h.Random[5] = byte(rapid.IntRange(0, 2).Draw(t, "rnd"))
-				if rapid.IntRange(0, 3).Draw(t, "sid") == 0 {
+				switch rapid.IntRange(0, 5).Draw(t, "sid") {
+				case 0:
 					h.SID = []byte{9, 9}
+				case 1:
+					h.SIDEst = c.Prime
 				}
 				if rapid.IntRange(0, 3).Draw(t, "suites") == 0 {
 					h.Suites = h.Suites[:2]
 				}
-				h.Cookie = rapid.SampledFrom([]string{"none", "echo", "echo", "flip", "prev", "random"}).Draw(t, "cookie")
+				h.Cookie = rapid.SampledFrom([]string{"none", "echo", "echo", "flip", "prev", "random", "trunc", "byte", "extend"}).Draw(t, "cookie")
 				h.FlipPos = rapid.IntRange(0, 40).Draw(t, "pos")
 				h.FlipMask = byte(rapid.IntRange(1, 255).Draw(t, "mask"))
 				cn.Hellos = append(cn.Hellos, h)
